@@ -26,7 +26,7 @@ func (g *gen) typeUse() {
 		add := func(s string) { lines = append(lines, s) }
 		n := g.intn(2, 8, "nuses")
 		for i := 0; i < n; i++ {
-			switch g.intn(0, 21, "useform") {
+			switch g.intn(0, 23, "useform") {
 			case 0:
 				add("_ = " + fn + "(" + g.arg(t, 2) + ")")
 				g.feat("use_one_arg_call")
@@ -131,6 +131,18 @@ func (g *gen) typeUse() {
 			case 18:
 				add("_ = interface{ M(" + ts() + ") " + ts() + " }(nil)")
 				add("var _ interface{ M() } = nil")
+			case 22, 23:
+				// values of the type handed to the functions that walk types by reflection
+				g.feat("use_reflection_api")
+				xmlOK := (!t.SelfEmb || g.include("fakexml-embedded-pointer-cycle")) && (!t.EmbPtr || g.include("fakereflect-fieldbyindex-embedded-pointer"))
+				forms := []string{"_, _ = json.Marshal(p)", "_ = json.Unmarshal(nil, &p)", "_, _ = json.Marshal(&p)", "_ = binary.Write(io.Discard, binary.LittleEndian, p)", "_ = binary.Size(p)",
+					"_ = fmt.Sprintf(\"%v %d %s %x\", p, p, p, p)", "new(sync.Pool).Put(p)", "sort.Slice(p, func(i, j int) bool { return false })", "_ = errors.As(nil, &p)", "_ = reflect.DeepEqual(p, p)",
+					"_ = context.WithValue(context.Background(), p, p)", "new(atomic.Value).Store(p)", "_ = json.NewEncoder(io.Discard).Encode([]any{p, &p})", "_ = binary.Read(nil, binary.BigEndian, &p)"}
+				if xmlOK {
+					forms = append(forms, "_, _ = xml.Marshal(p)", "_, _ = xml.Marshal(&p)", "_ = xml.Unmarshal(nil, &p)", "_ = xml.NewEncoder(io.Discard).Encode(p)", "_, _ = xml.MarshalIndent([]any{p}, \"\", \" \")", "_, _ = xml.Marshal(struct{ V any }{p})")
+				}
+				add(pick(g, "reflapi", forms...))
+				add(pick(g, "reflapi", forms...))
 			case 19:
 				add("_ = unsafe.Sizeof(p)")
 				add("_ = reflect.TypeOf(p)")
